@@ -40,7 +40,7 @@ def fe_hook(fn, args, kwargs):
 
 
 class Chain:
-    def __init__(self, lib: ElemLib, name: str, symbolic_vertices=False):
+    def __init__(self, lib: ElemLib, name: str, symbolic_vertices=False, fe=False):
         self.lib = lib
         ed = lib.get(name)
         self.ed = ed
@@ -68,9 +68,10 @@ class Chain:
         a["_global_to_local_nodes"] = XArray((ed.nPe,), list(range(ed.nPe)))
         a["coord"] = XArray.from_nested(coords)
         a["Get_gauss"] = lambda mt=None: SimpleNamespace(coord=XArray((1, dim), list(self.xi)), nPg=1, weights=XArray((1,), [Poly.var("w")]))
+        a["Get_weight_pg"] = lambda mt=None: XArray((1,), [Poly.var("w")])
         self.obj = obj
         self.I = Interp(repo)
-        self.I.call_hook = fe_hook
+        self.I.call_hook = fe_hook_full if fe else fe_hook
         self.mt = Opaque("matrixType")
 
     def call(self, method, *args):
@@ -93,3 +94,165 @@ class Chain:
         """physical position as polynomial of the reference point (geometry of the placed nodes)"""
         N = self.geom.N
         return [sum((N[a] * self.node_coords[a][k] for a in range(self.ed.nPe)), Poly()) for k in range(self.ed.dim)]
+
+
+# ---------------------------------------------------------------------------
+# finite-element array semantics (the specification FeArray implements):
+# rank = ndim - 2, fields are padded on the right to the widest rank, plain
+# arrays are constant tensors, .T swaps the tensor axes, @ follows __matmul__.
+# ---------------------------------------------------------------------------
+
+
+class XFe(XArray):
+    __slots__ = ()
+
+    @staticmethod
+    def of(a):
+        a = XArray.from_nested(a)
+        if a.ndim < 2:
+            raise AnalysisError("FeArray view of an array without (Ne, nPg) axes")
+        return XFe(a.shape, a.data)
+
+    @property
+    def _ndim(self):
+        return self.ndim - 2
+
+    @property
+    def T(self):
+        if self._ndim == 2:
+            ax = list(range(self.ndim))
+            ax[-1], ax[-2] = ax[-2], ax[-1]
+            return XFe.of(XArray.transpose(self, *ax))
+        if self._ndim > 2:
+            n = self.ndim
+            return XFe.of(XArray.transpose(self, *([0, 1] + list(range(n - 1, 1, -1)))))
+        return self
+
+    def _aligned(self, o):
+        a = self
+        if isinstance(o, XFe):
+            ra, rb = a._ndim, o._ndim
+            nt = max(ra, rb)
+            if ra < nt:
+                a = XArray(a.shape + (1,) * (nt - ra), a.data)
+            if rb < nt:
+                o = XArray(o.shape + (1,) * (nt - rb), o.data)
+        return a, o
+
+    def _binop(self, o, f, reflected=False):
+        if isinstance(o, (list, tuple)):
+            o = XArray.from_nested(o)
+        a, o2 = self._aligned(o)
+        res = XArray._binop(XArray(a.shape, a.data), XArray(o2.shape, o2.data) if isinstance(o2, XArray) else o2, f, reflected)
+        return XFe.of(res)
+
+    def __neg__(self):
+        return XFe.of(XArray.__neg__(self))
+
+    def __matmul__(self, o):
+        if isinstance(o, (list, tuple)):
+            o = XArray.from_nested(o)
+        n1 = self._ndim
+        n2 = o._ndim if isinstance(o, XFe) else o.ndim
+        from .xarray import einsum as xe, matmul
+
+        if n1 == 2 and n2 == 2:
+            return XFe.of(matmul(XArray(self.shape, self.data), XArray(o.shape, o.data)))
+        if n1 == 1 and n2 == 2:
+            return XFe.of(xe("...i,...ij->...j", self, o))
+        if n1 == 2 and n2 == 1:
+            return XFe.of(xe("...ij,...j->...i", self, o))
+        raise AnalysisError(f"FeArray @ with tensor ranks ({n1},{n2}) is not modelled")
+
+    def __rmatmul__(self, o):
+        o = XArray.from_nested(o)
+        from .xarray import matmul
+
+        if o.ndim == 2 and self._ndim == 2:
+            return XFe.of(matmul(o, XArray(self.shape, self.data)))
+        raise AnalysisError("ndarray @ FeArray with these ranks is not modelled")
+
+    def integrate(self):
+        return XArray.sum(self, 1)
+
+    def __getitem__(self, key):
+        r = XArray.__getitem__(self, key)
+        if isinstance(r, XArray) and not isinstance(r, XFe) and r.ndim >= 2:
+            k = key if isinstance(key, tuple) else (key,)
+            lead = [x for x in k if x is not Ellipsis][:2]
+            if (len(lead) == 2 and all(isinstance(x, slice) for x in lead)) or (k and k[0] is Ellipsis) or len(lead) < 2 and all(isinstance(x, slice) for x in lead):
+                return XFe(r.shape, r.data)
+        return r
+
+    def copy(self):
+        return XFe(self.shape, self.data)
+
+
+def fe_hook_full(fn, args, kwargs):
+    """FeArray factory functions modelled by their specification."""
+    from .xeval import _NpAttr
+
+    if isinstance(fn, _Bound):
+        n = fn.finfo.name
+        if n == "asfearray":
+            if kwargs.get("broadcastFeArrays") or (len(args) > 1 and args[1]):
+                a = XArray.from_nested(args[0])
+                return XFe((1, 1) + a.shape, a.data)
+            return XFe.of(args[0])
+        if n == "broadcast" and fn.finfo.cls is not None and fn.finfo.cls.name == "FeArray":
+            value = args[0]
+            tn = kwargs.get("tensor_ndim", args[3] if len(args) > 3 else 0)
+            if not isinstance(value, XArray):
+                return value
+            if isinstance(value, XFe):
+                return value
+            if tn and value.ndim == tn:
+                return XFe((1, 1) + value.shape, value.data)
+            if value.ndim >= 2 and value.shape[:2] == (1, 1):
+                return XFe.of(value)
+            raise AnalysisError("FeArray.broadcast of this shape is not modelled")
+    if isinstance(fn, _NpAttr) and fn.path in ("abs", "asarray") and args and isinstance(args[0], XFe):
+        a = args[0]
+        return XArray(a.shape, a.data)
+    if isinstance(fn, _NpAttr) and fn.path == "abs":
+        # |det F| on a positively oriented reference geometry
+        return args[0]
+    return NotImplemented
+
+
+class OpaqueGroup:
+    """One element, one Gauss point, with the geometric factors as opaque
+    symbols: dN_e[k][n] = d<k>_<n>, N[n] = n<n>, wJ.  Operators interpreted on
+    it give polynomial element matrices whose layout and congruence shape can
+    be compared with the intended  wJ * X^T S X."""
+
+    def __init__(self, lib: ElemLib, name: str, dim=None, nPe=None):
+        repo = lib.repo
+        ed = lib.get(name)
+        self.ed = ed
+        self.dim = dim = dim or ed.dim
+        self.nPe = nPe = nPe or ed.nPe
+        obj = lib.make_obj(name)
+        a = obj.attrs
+        a["Ne"] = 1
+        a["nPe"] = nPe
+        self.d = [[Poly.var(f"d{k}_{n}") for n in range(nPe)] for k in range(dim)]
+        self.n = [Poly.var(f"n{i}") for i in range(nPe)]
+        self.wJ = Poly.var("wJ")
+        a["Get_dN_e_pg"] = lambda mt=None: XFe((1, 1, dim, nPe), [self.d[k][n] for k in range(dim) for n in range(nPe)])
+        a["Get_weightedJacobian_e_pg"] = lambda mt=None: XFe((1, 1), [self.wJ])
+        a["Get_N_pg"] = lambda mt=None: XArray((1, 1, nPe), list(self.n))
+        a["Get_gauss"] = lambda mt=None: SimpleNamespace(nPg=1, coord=None, weights=XArray((1,), [Poly.var("w")]))
+        self.obj = obj
+        self.I = Interp(repo, max_steps=2_000_000)
+        self.I.call_hook = fe_hook_full
+        self.mt = Opaque("matrixType")
+        self.repo = repo
+
+    def call_method(self, method, *args, **kw):
+        f = self.repo.method(GE, method)
+        return self.I.call_function(f, list(args), kw, self_obj=self.obj)
+
+    def call_func(self, qualname, *args, **kw):
+        f = self.repo.func(qualname)
+        return self.I.call_function(f, list(args), kw)
